@@ -221,6 +221,11 @@ class Ctx:
                 listed[hit[0]].append(v)
             else:
                 unlisted.append(v)
+        if os.environ.get("VERIF_SUMMARY"):
+            by_tags = collections.Counter(tuple(v["tags"]) for v in self.violations)
+            print("violations by tag tuple:")
+            for tags, n in by_tags.most_common(60):
+                print(f"  {n:6d}  {tags}")
         REPLAY_DIR.mkdir(exist_ok=True)
         printed = 0
         seen_sig = set()
